@@ -56,3 +56,15 @@ Section NoDupb.
     congruence.
   Qed.
 End NoDupb.
+
+Lemma NoDup_app_l {A} (l l' : list A) : NoDup (l ++ l') -> NoDup l.
+Proof. induction l as [|x xs IH]; cbn; intros H; [constructor|]. inversion H; subst. constructor; [|now apply IH]. intros Hin. apply H2. apply in_or_app. now left. Qed.
+
+Lemma NoDup_app_r {A} (l l' : list A) : NoDup (l ++ l') -> NoDup l'.
+Proof. induction l as [|x xs IH]; cbn; intros H; [assumption|]. inversion H; subst. now apply IH. Qed.
+
+Lemma NoDup_app_disj {A} (l l' : list A) x : NoDup (l ++ l') -> In x l -> ~ In x l'.
+Proof.
+  induction l as [|y ys IH]; cbn; intros H Hin; [contradiction|]. inversion H; subst.
+  destruct Hin as [->|Hin]; [intros Hin'; apply H2; apply in_or_app; now right|now apply IH].
+Qed.
